@@ -39,7 +39,8 @@ PROP = dict(
           "an aliased write on a prefix of >= 4 bytes; a nest case with a sub-reader taken from a reader whose cursor is not 0 or an "
           "explicit-width get<T> with size > sizeof(T); a >4 GiB case with a 24/48-bit read ending above 2^32. "
           "Distinct = distinct case encodings (hash)."),
-    assumptions=["little-endian host only: 'regardless of host byte order' is checked by an independent shift/multiply decoder, not by running on a big-endian host",
+    assumptions=["which exception class reports truncate() beyond the size (BitWriter, BitReader) or a read of more than 64 bits is not judged - only that the call throws",
+                 "little-endian host only: 'regardless of host byte order' is checked by an independent shift/multiply decoder, not by running on a big-endian host",
                  "BitReader reads are generated inside its length only (BitReader is unchecked by design)",
                  "positional writes land at most 64 bytes past the end of the buffer",
                  "BufferWriter is given a buffer of exactly the model's final size (bounds behaviour is C02)",
